@@ -109,6 +109,8 @@ fn cmp_values(a: &Value, b: &Value) -> Option<Ordering> {
         _ => match (a, b) {
             (Value::Text(x), Value::Text(y)) => Some(x.as_str().cmp(y.as_str())),
             (Value::Date(x), Value::Date(y)) => Some((**x).cmp(&**y)),
+            (Value::DateTime(x), Value::DateTime(y)) => Some((**x).cmp(&**y)),
+            (Value::Time(x), Value::Time(y)) => Some((**x).cmp(&**y)),
             _ => None,
         },
     }
@@ -233,7 +235,44 @@ fn gen_cols(r: &mut Rng, prefix: &str) -> Vec<ColSpec> {
         ColSpec { name: format!("{}x", prefix), ty: { let t = DataType::Float(float(r)); opt(r, t) } },
         ColSpec { name: format!("{}s", prefix), ty: { let t = DataType::Text(gen_text(r)); opt(r, t) } },
         ColSpec { name: format!("{}f", prefix), ty: { let t = DataType::Boolean(gen_boolean(r)); opt(r, t) } },
+        // temporal columns (narrowing goes through greatest / least and the per-variant union / intersection)
+        ColSpec { name: format!("{}d", prefix), ty: { let t = DataType::Date(date_ty(r)); opt(r, t) } },
+        ColSpec { name: format!("{}e", prefix), ty: { let t = DataType::Date(date_ty(r)); opt(r, t) } },
+        ColSpec { name: format!("{}t", prefix), ty: { let t = DataType::DateTime(datetime_ty(r)); opt(r, t) } },
+        ColSpec { name: format!("{}u", prefix), ty: { let t = DataType::DateTime(datetime_ty(r)); opt(r, t) } },
+        ColSpec { name: format!("{}m", prefix), ty: { let t = DataType::Time(time_ty(r)); opt(r, t) } },
     ]
+}
+
+fn base_date(r: &mut Rng) -> chrono::NaiveDate {
+    chrono::NaiveDate::from_ymd_opt(2020, 1, 1).unwrap() + chrono::Duration::days(r.range(0, 400))
+}
+
+fn date_ty(r: &mut Rng) -> dt::Date {
+    let a = base_date(r);
+    match r.below(4) {
+        0 => dt::Date::from_interval(a, a + chrono::Duration::days(r.range(0, 200))),
+        1 => dt::Date::from_values([a, a + chrono::Duration::days(r.range(1, 5)), a + chrono::Duration::days(r.range(6, 60))]),
+        2 => dt::Date::from_interval(a, a + chrono::Duration::days(r.range(0, 10))).union_interval(a + chrono::Duration::days(30), a + chrono::Duration::days(r.range(30, 90))),
+        _ => dt::Date::from_interval(a - chrono::Duration::days(r.range(0, 700)), a + chrono::Duration::days(r.range(0, 700))),
+    }
+}
+
+fn datetime_ty(r: &mut Rng) -> dt::DateTime {
+    let a = base_date(r).and_hms_opt(r.range(0, 23) as u32, r.range(0, 59) as u32, 0).unwrap();
+    match r.below(3) {
+        0 => dt::DateTime::from_interval(a, a + chrono::Duration::hours(r.range(0, 5000))),
+        1 => dt::DateTime::from_values([a, a + chrono::Duration::seconds(r.range(1, 50)), a + chrono::Duration::hours(r.range(1, 600))]),
+        _ => dt::DateTime::from_interval(a, a + chrono::Duration::hours(r.range(0, 100))).union_interval(a + chrono::Duration::hours(500), a + chrono::Duration::hours(r.range(500, 900))),
+    }
+}
+
+fn time_ty(r: &mut Rng) -> dt::Time {
+    let a = chrono::NaiveTime::from_hms_opt(r.range(0, 11) as u32, r.range(0, 59) as u32, 0).unwrap();
+    match r.below(2) {
+        0 => dt::Time::from_interval(a, a + chrono::Duration::minutes(r.range(0, 600))),
+        _ => dt::Time::from_values([a, a + chrono::Duration::minutes(r.range(1, 30)), a + chrono::Duration::minutes(r.range(31, 600))]),
+    }
 }
 
 fn inner(t: &DataType) -> &DataType {
@@ -268,6 +307,21 @@ fn near_literal(r: &mut Rng, t: &DataType) -> Value {
         }
         DataType::Text(_) => Value::text(text_any(r)),
         DataType::Boolean(_) => Value::boolean(r.bool()),
+        DataType::Date(d) if !d.is_empty() => {
+            let [a, b] = d[r.usize(d.len())];
+            Value::date((if r.bool() { a } else { b }) + chrono::Duration::days(r.range(-2, 2)))
+        }
+        DataType::DateTime(d) if !d.is_empty() => {
+            let [a, b] = d[r.usize(d.len())];
+            Value::date_time((if r.bool() { a } else { b }) + chrono::Duration::seconds(r.range(-2, 2) * *r.pick(&[1i64, 3600])))
+        }
+        DataType::Time(d) if !d.is_empty() => {
+            let [a, b] = d[r.usize(d.len())];
+            let base = if r.bool() { a } else { b };
+            // no wrap-around at midnight
+            let shifted = base.overflowing_add_signed(chrono::Duration::minutes(r.range(-2, 2)));
+            Value::time(if shifted.1 == 0 { shifted.0 } else { base })
+        }
         _ => Value::integer(r.range(-5, 5)),
     }
 }
@@ -299,7 +353,20 @@ fn gen_pred(r: &mut Rng, cols: &[ColSpec], depth: u32) -> P {
         }
         4 | 5 => {
             // column vs column (numeric, possibly int vs float)
-            let (c1, c2) = (*r.pick(&numeric), *r.pick(&numeric));
+            let (c1, c2) = if r.chance(1, 3) {
+                // two temporal columns of the same variant
+                let kind = r.below(2);
+                let same: Vec<&ColSpec> = cols
+                    .iter()
+                    .filter(|c| match (kind, inner(&c.ty)) {
+                        (0, DataType::Date(_)) | (1, DataType::DateTime(_)) => true,
+                        _ => false,
+                    })
+                    .collect();
+                if same.len() >= 2 { (*r.pick(&same), *r.pick(&same)) } else { (*r.pick(&numeric), *r.pick(&numeric)) }
+            } else {
+                (*r.pick(&numeric), *r.pick(&numeric))
+            };
             P::Cmp(*r.pick(&ops), Operand::Col(c1.name.clone()), Operand::Col(c2.name.clone()))
         }
         6 | 7 => {
